@@ -23,6 +23,9 @@ pub fn families() -> Vec<(&'static str, fn(usize) -> String)> {
         ("strong", |n| "**a ".repeat(n) + &"a**".repeat(n)),
         ("strike", |n| "~~a ".repeat(n) + &"a~~".repeat(n)),
         ("quote-in-item", |n| { let mut s = String::new(); for i in 0..n { s.push_str(&" ".repeat(0 * i)); s.push_str("- > "); } s + "a" }),
+        // emphasis restarts its allowance below every image: the family that reaches the quadratic bound
+        ("emph-in-img", |n| "*a *b ![".repeat(n) + "c" + &"](i) b* a*".repeat(n)),
+        ("strong-in-link", |n| "**a [".repeat(n) + "c" + &"](u) a**".repeat(n)),
         ("ref-links", |n| "[a]: /x\n\n".to_string() + &"[".repeat(n) + "a" + &"][a]".repeat(n)),
     ]
 }
@@ -46,6 +49,11 @@ pub fn depths(node: &Node) -> (usize, usize) {
 }
 
 pub fn bound(max_nesting: u32) -> usize { 4 * max_nesting as usize + 16 }
+
+/// `Pipeline.doc_full_depth_bounded` (Props/EmphDepthDoc.lean): the depth of the whole tree, emphasis wrappers
+/// included, is at most 1 for N = 0 and N + 1 + depthBound N otherwise, depthBound N = 1 + N(N+3)/2
+/// (links and images nest at most N deep, at most N - l emphasis wrappers sit at level l); reached for N = 1, 2
+pub fn full_bound(max_nesting: u32) -> usize { let n = max_nesting as usize; if n == 0 { 1 } else { n + 1 + 1 + n * (n + 3) / 2 } }
 
 pub fn run(n: usize, rng: &mut Rng, rep: &mut Report) {
     // n scales the largest size: quick n=3000, thorough n=20000
@@ -98,9 +106,13 @@ pub fn run(n: usize, rng: &mut Rng, rep: &mut Report) {
                     rep.stats.add("max_full_depth_seen", 0);
                     if non_emph > b {
                         rep.violation("depth", input.clone(), format!("tree depth {} (without emphasis wrappers {}) exceeds bound {} for max_nesting {}", full, non_emph, b, mn));
-                    } else if full > b {
-                        rep.violation("emph-depth", input.clone(), format!("tree depth {} exceeds bound {} for max_nesting {}; every level beyond the bound is an emphasis wrapper", full, b, mn));
+                    } else if full > full_bound(mn) {
+                        rep.violation("emph-depth", input.clone(), format!("tree depth {} exceeds bound {} for max_nesting {}; every level beyond the bound is an emphasis wrapper", full, full_bound(mn), mn));
                     }
+                    rep.stats.add(&format!("max_full_depth_seen_N{}", mn), 0);
+                    let key = format!("max_full_depth_seen_N{}", mn);
+                    let cur = rep.stats.counters.iter().find(|(k, _)| *k == key).map(|(_, v)| *v).unwrap_or(0);
+                    if full as u64 > cur { rep.stats.add(&key, full as u64 - cur); }
                     #[cfg(mdit_verif)]
                     {
                         if gauge.max_depth as usize > b {
